@@ -67,8 +67,15 @@ PROPS = {
              ["Move::new accepts exactly the geometrically possible tuples (Spec.geomPossible): differential over all 532,480 tuples (a kernel decision of ~6 min; not yet a theorem)"],
              "Lean 4 theorems over all valid positions; differential (wfbulk over all tuples, semibulk, generators) ties the model to the code",
              "§6 C06"),
-    "C07": P("exploration", "none yet", ["has_legal_moves_iff", "insufficient_iff", "calc_outcome_eq"],
-             "differential vs Spec.outcomes (relational: any applicable reason of the right tier); thresholds and masks re-extracted from source",
+    "C07": P("proof", "calcOutcome_eq: on EVERY valid position Board::calc_outcome returns exactly Spec.outcome (checkmate won by the side not "
+             "to move iff in check with no legal move; stalemate iff not in check with no legal move; otherwise insufficient material, "
+             "then 150 half-moves, then 100 half-moves, else none — that order is the precedence; the reported reason applies) and never "
+             "panics; hasLegalMoves_spec: the early-exit query is true exactly when the legal move set (C01) is non-empty — its skipping "
+             "of castling is sound by king_step_legal; insufficient_material_iff: the bitboard test = nothing but kings, or a single "
+             "knight, or only bishops all on one square colour (masks_spec: the extracted light/dark masks are the rule's squares); "
+             "calcDrawSimple_eq",
+             [],
+             "Lean 4 theorems over all valid positions; differential on generated positions (single-generator-group family, square-colour corpus) ties the model to the code",
              "§6 C07"),
     "C08": P("proof", "fen_roundtrip (for EVERY raw board whose en-passant mark is on the rank for the side to move and whose counters "
              "fit u16, parseFen (fmtFen r) = r in all six fields) and fen_roundtrip_iff (those hypotheses are necessary); "
@@ -117,7 +124,7 @@ PROPS = {
              "Repeat3, else the position's own outcome); occurrences_ge (every true repetition — same squares, side, rights, en-passant "
              "mark — is counted, by C05); passes_table (forced pass every filter, mandatory strict+relaxed, claimable relaxed only); "
              "auto_spec (stores the calculated outcome exactly when it passes the filter); pop_push_counts; calc_total (no panic)",
-             ["the position's own outcome (mate / stalemate / insufficient / 75 / 50) is C07: differential",
+             ["the position's own outcome (mate / stalemate / insufficient / 75 / 50) is C07 (now proved: calcOutcome_eq)",
               "occurrences are counted by Zobrist hash: an over-count needs a 64-bit collision (cannot be excluded by proof; C05 shows no under-count)"],
              "Lean 4 theorems over the chain invariant; differential on generated chain scripts (repetition-heavy flavours) ties the model to the code",
              "§6 C14"),
@@ -144,8 +151,16 @@ PROPS = {
               "that the SAN styles never fail to print a recorded move is C09: differential"],
              "Lean 4 theorems by induction over step lists and over the game; differential on generated chain scripts (walk / uci / rebuild / styled, custom numbers up to 2^32) ties the model to the code",
              "§6 C17"),
-    "C18": P("exploration", "none yet", ["legal_mirrorV on Spec"],
-             "metamorphic on the implementation (A = B after mirroring) + model", "§6 C18"),
+    "C18": P("proof", "rules level (Lemmas/MirrorSpec): rules_mirror_v / rules_mirror_h — the mirror image of a valid position is valid, "
+             "normalisation commutes, legal moves are exactly the mirror images, check / no-legal-move / insufficient material / outcome "
+             "are preserved (winner swapped under the colour-swapping mirror); H for positions without castling rights; kernel-checked "
+             "counterexamples show the side conditions are necessary. Implementation level: abs_mirror / abs_mirrorH (the raw-board "
+             "mirror corresponds to the rules-level one), mirror_v_impl / mirror_h_impl (end to end through C11, C01, C07: the mirrored "
+             "raw board passes the gate, the legal generator's output on it is exactly the mirror image of its output on the original, "
+             "calc_outcome agrees with the winner swapped)",
+             [],
+             "Lean 4 theorems (one abstract symmetry, two instances); differential `mirror v|h` on generated positions ties the model to the code",
+             "§6 C18"),
     "C19": P("proof", "PARTIAL: rookIndex_lt / bishopIndex_lt (the magic lookup index is inside the table for every square and all 2^64 "
              "occupancies, from x>>>s < 2^(64-s) and a kernel check of the 128 extracted (offset, shift) pairs); every other table is "
              "indexed by a bounded type; the unchecked square additions of the validator / make-move stay on the board (per-rank facts)",
